@@ -61,3 +61,38 @@ Proof.
   unfold items_ok. repeat (apply Forall_cons; [split; [split; [reflexivity|split; [vm_compute; discriminate|reflexivity]]|reflexivity]|]).
   apply Forall_nil.
 Qed.
+
+(** * T-SQL without semicolons (Tree/TsqlSplit.v: model of _list_specific_statement_segment on the file tree, split_tsql with its
+    raw-text keyed cache, the statement loop through the cache; Tree/TsqlSplitProofs.v) *)
+From SV Require Import Tree.Render Tree.LemmaA Tree.TsqlSplit Tree.TsqlSplitProofs.
+
+(** the statements listed for a no-semicolon batch are exactly its statements, in order - none lost, none invented; any trivia *)
+Theorem c05_tsql_statement_list : forall noise ss, noise_ok noise = true ->
+  list_statements (r_file_tsql noise ss) = Ok (map (r_stmt noise) ss).
+Proof. intros noise ss H. apply list_statements_tsql. exact H. Qed.
+Print Assumptions c05_tsql_statement_list.
+
+Theorem c05_tsql_statement_list_go_batches : forall noise bs, noise_ok noise = true ->
+  list_statements (r_file_tsql_go noise bs) = Ok (map (r_stmt noise) (List.concat bs)).
+Proof. intros noise bs H. apply list_statements_tsql_go. exact H. Qed.
+Print Assumptions c05_tsql_statement_list_go_batches.
+
+(** the cache keyed by raw text returns, for every text handed out, the LAST segment with that text *)
+Theorem c05_tsql_cache_lookup : forall q segs d0,
+  dict_get q (build_cache segs d0) = last_with_raw q segs (dict_get q d0).
+Proof. exact cache_lookup. Qed.
+Print Assumptions c05_tsql_cache_lookup.
+
+(** the C05 clause: with a provider without metadata a no-semicolon T-SQL script is analysed as each statement on its own -
+    provided statements with equal raw text are equal trees ([raw_determines]; needed: c05_tsql_needs_raw_determines) *)
+Theorem c05_tsql_script_is_its_statements : forall noise e silent base ss,
+  noise_ok noise = true -> p_truthy (e_provider e) = false -> raw_determines (map (r_stmt noise) ss) ->
+  match run_tsql e silent base (r_file_tsql noise ss), map_res (analyze e silent) (map (r_stmt noise) ss) with
+  | Ok (gs, _), Ok gs' => gs = gs' | Err x, Err y => x = y | _, _ => False end.
+Proof. intros. apply c05_tsql_no_semicolon; assumption. Qed.
+Print Assumptions c05_tsql_script_is_its_statements.
+
+Theorem c05_tsql_raw_determines_refuted :
+  ~ (forall ss, forallb stmt_ok ss = true -> raw_determines (map (r_stmt []) ss)).
+Proof. exact raw_determines_rendered_refuted. Qed.
+Print Assumptions c05_tsql_raw_determines_refuted.
